@@ -45,6 +45,9 @@ type cfg struct {
 	// jitter kind was configured first.
 	PriorDelay  string `json:"prior_delay,omitempty"`
 	PriorJitter bool   `json:"prior_jitter,omitempty"`
+	// Interleave (probe only): before the k-th delay of the execution under test, a second execution sharing the policy
+	// instance schedules Interleave[k] retries of its own; each execution's delays follow its own count of failures
+	Interleave []int `json:"interleave,omitempty"`
 }
 
 func (c cfg) build(onScheduled func(failsafe.ExecutionScheduledEvent[int])) retrypolicy.RetryPolicy[int] {
@@ -359,12 +362,30 @@ func probeProperty(test string, st *harness.Stats) func(*rapid.T) {
 		if rapid.Bool().Draw(t, "maxDur") {
 			c.MaxDur = logUniform(t, "maxDur", 1_000_000, int64(40*time.Hour))
 		}
-		probe := retrypolicy.VerifDelayProbe[int](c.build(nil))
+		if rapid.IntRange(0, 2).Draw(t, "interleaved") == 0 {
+			for k := 0; k < c.Failures; k++ {
+				c.Interleave = append(c.Interleave, rapid.IntRange(0, 2).Draw(t, "otherRetries"))
+			}
+		}
+		policy := c.build(nil)
+		probe := retrypolicy.VerifDelayProbe[int](policy)
+		other := retrypolicy.VerifDelayProbe[int](policy) // a second execution through the same policy instance
+		fb := &fakeAttempt{}
 		fa := &fakeAttempt{}
 		var prev float64
 		clamp := false
 		var seq []int64
 		for k := 0; k < c.Failures; k++ {
+			if k < len(c.Interleave) {
+				for j := 0; j < c.Interleave[k]; j++ {
+					d := other(fb)
+					lo, hi := c.envelope(fb.retries)
+					if c.MaxDur == 0 && (float64(d) < lo || float64(d) > hi) {
+						harness.Violation(t, prop, test, "delay-outside-envelope-interleaved", map[string]any{"cfg": c}, "%+v: delay %d of a second execution sharing the policy is %v, outside [%v, %v]", c, fb.retries, d, time.Duration(lo), time.Duration(hi))
+					}
+					fb.retries++
+				}
+			}
 			fa.retries = k
 			if c.MaxDur != 0 {
 				fa.elapsed += time.Duration(logUniform(t, "elapsedStep", 1000, max(2000, c.MaxDur/4)))
